@@ -56,7 +56,9 @@ theorem gen_msg_exit :
     Gen.C18.msgExitTable.all msgExitRowOk = true ∧ Gen.C18.msgExitTable.map (·.1) = [0, 1, 2, 3, 4]
       ∧ Gen.C18.verbosityLevels = [0, 1, 2, 3, 4] := by decide
 
-theorem gen_cfg : genCfg.bufSize = 8192 ∧ genCfg.pendingMax = 2 ^ 62 := by decide
+/-- All the theorems below need from the build's constants: the I/O buffer is not empty (its actual size — 8 KiB in
+    xz 5.8 — is a parameter of the model, `Cfg.bufSize`, and every theorem holds for every positive size). -/
+theorem gen_cfg : 0 < genCfg.bufSize ∧ 0 < genCfg.pendingMax := by decide
 
 /-! ### The sparse writer -/
 
@@ -103,6 +105,16 @@ theorem sparse_on_error_without_flush (cfg : Cfg) (hB : 0 < cfg.bufSize) (hf : c
     unfold ioClose; simp [hf]
   rw [this]
   simpa using h2.data
+
+/-- **any_sparse_strategy_exact** (refinement to the abstract specification). Whatever strategy a sparse writer uses —
+    whole buffers, 4 KiB sub-blocks, byte-exact runs — if its `write`/`lseek` trace is a partition of the output `W` into
+    written ranges and skipped all-zero ranges, every skipped range being followed by a later write (`traceDelivers`), then
+    on a regular file that was positioned at its end the result is exactly the old content followed by `W`.
+    Stage K accepts an implementation trace that differs from `ioWrite`'s when it satisfies `traceDelivers`. -/
+theorem any_sparse_strategy_exact (t : List Ev) (W : List UInt8) (d : Dest) (hreg : d.kind = .regular)
+    (hna : d.flags.append = false) (hend : d.offset = d.content.length) (h : traceDelivers t W false = true) :
+    (replayTrace t W d).content = d.content ++ W ∧ (replayTrace t W d).offset = (d.content ++ W).length := by
+  simpa [zeros] using replay_delivers t W d 0 false hreg hna (by simpa using hend) (fun _ => rfl) h
 
 /-- **sparse_off_when_unsafe.** Sparse mode is switched on for standard output exactly when `--no-sparse` is not
     given, the mode is decompression, standard output is a regular file, and either O_APPEND is set or the offset
